@@ -1,22 +1,57 @@
 /* VERIF-UNIT
 {
- "name": "get_backup_sb",
+ "name": "get_backup_sb_default",
  "props": ["C20"],
- "level": "U/iter",
- "tier": "wip",
- "harness": "h_get_backup_sb",
+ "level": "B(2)",
+ "tier": "quick",
+ "harness": "h_get_backup_sb_default",
  "includes": ["e2fsck", "lib/support"],
- "loop_contracts": true,
- "unwind": 16,
- "unwindset": {"get_backup_sb.0": 8},
- "unwind_reason": "outer loop: the block size doubles from >= 1024 while <= 65536 (EXT2_MAX_BLOCK_SIZE): at most 7 iterations, unwound 8 with unwinding assertions (level U/k); the inner group loop carries an in-place loop contract (named anchor VERIF_INV_GET_BACKUP_SB_GROUPS, text below) and is CUT: the statement holds per iteration, termination of the inner loop is not claimed; 16 serves the DFCC library loops over the assigns targets",
+ "unwind": 9,
+ "unwindset": {"get_backup_sb.0": 4},
+ "cbmc_flags": ["--object-bits", "12"],
+ "unwind_reason": "outer loop: the block size doubles from >= 1024 while <= 65536 (EXT2_MAX_BLOCK_SIZE): at most 7 iterations, complete (unwinding assertions on). Inner group loop: BOUNDED STAND-IN, the ext2fs_list_backups stub hands out at most 2 arbitrary candidate groups per block size and then reports the end of the sequence, so the loop runs at most 3 times; the loop body keeps no state between candidates (it either accepts and leaves or continues), so the per-probe statement does not depend on the number of earlier probes, but this is an argument, not a proof: level B(2)",
  "functions": ["e2fsck/util.c:get_backup_sb"],
- "assumes": ["NEEDS the hook in hooks-pending/geo.diff (named loop anchor VERIF_INV_GET_BACKUP_SB_GROUPS) and the empty default for that name in include/e2fsprogs_verif.h (pass2/check_filetype links e2fsck/util.c too)",
+ "assumes": ["why not U/iter: CBMC 6.11 loop contracts need a contract on BOTH nested loops, and goto-instrument then aborts on this function (dfcc_instrument_loop.cpp:625 'Exiting instructions must be GOTOs'); a contract on the inner loop alone is instrumented but its frame check fails against the uncontracted outer loop. No hook is needed for this unit",
              "call sites (e2fsck/unix.c, e2fsck/message.c): ctx is non-NULL whenever name and manager are (message.c passes NULL, NULL, NULL and only wants the 8193 default)",
-             "ctx->blocksize (e2fsck -B) is 0 or a legal block size 1024 << n, n <= 6; fs->blocksize likewise; otherwise blocksize * 8 and the divisions by it are symbolic",
-             "ext2fs_list_backups is a stub returning an ARBITRARY group (its enumeration = exactly the backup groups of the format is unit geometry/list_backups); the stub checks it is called with fs == NULL (sparse_super sequence) ",
-             "io manager (open, set_blksize, close), io_channel_read_blk64, ext2fs_get_device_size2, ext2fs_blocks_count are stubs; the superblock read for a candidate is an arbitrary (magic, s_log_block_size) pair chosen per block size tried; little-endian host",
-             "the product grp * blocks_per_group is compared with the same product formed in the read stub (one multiplier on each side with identical operands)"],
+             "this unit: the filesystem handle is absent or has no superblock (the primary superblock was unusable: the usual situation), so the group size is the default 8 * blocksize; ctx->blocksize (e2fsck -B) is 0 (all seven sizes are tried) or a legal block size 1024 << n, n <= 6 (eight cases run with constants so that products and quotients fold); the known-group-size case is unit get_backup_sb_fs",
+             "ext2fs_list_backups is a stub returning ARBITRARY groups (its enumeration = exactly the backup groups of the format is unit geometry/list_backups), at most two per block size; the stub checks it is called with fs == NULL (sparse_super sequence)",
+             "the device has fewer than 2^32 - 1 groups of the size tried (otherwise the 32-bit 'limit' can be 0xffffffff and the real loop does not terminate once ext2fs_list_backups is exhausted: observation, not pursued)",
+             "the candidate blocks carry s_log_block_size <= 15: EXT2_BLOCK_SIZE(sb) = (1 << 10) << s_log_block_size is evaluated on the raw on-disk value BEFORE any validation, which is undefined for values >= 21 (observation unit get_backup_sb_wild_log; on x86 the shift count is taken modulo 32, so a block with magic 0xEF53 and s_log_block_size == 32 is accepted as a 1 KiB superblock)",
+             "io manager (open, set_blksize, close), io_channel_read_blk64, ext2fs_get_device_size2, ext2fs_blocks_count are stubs; the superblock read for a candidate is an arbitrary (magic, s_log_block_size) pair per probe; little-endian host"],
+ "native": false
+}
+*/
+/* VERIF-UNIT
+{
+ "name": "get_backup_sb_fs",
+ "props": ["C20"],
+ "level": "B(2)",
+ "tier": "wip",
+ "harness": "h_get_backup_sb_fs",
+ "includes": ["e2fsck", "lib/support"],
+ "unwind": 9,
+ "unwindset": {"get_backup_sb.0": 4},
+ "cbmc_flags": ["--object-bits", "12"],
+ "unwind_reason": "as get_backup_sb_default; the block size is known, the outer loop runs once",
+ "functions": ["e2fsck/util.c:get_backup_sb"],
+ "assumes": ["as get_backup_sb_default, but the filesystem handle has a superblock (descriptors looked bad): block size known (fs->blocksize or ctx->blocksize, each 1024 << n, n <= 6), s_blocks_per_group arbitrary non-zero; the candidate block is compared with a second instance of the product grp * s_blocks_per_group (symbolic 32 x 32 bit), which may not finish"],
+ "native": false
+}
+*/
+/* VERIF-UNIT
+{
+ "name": "get_backup_sb_wild_log",
+ "props": ["C20"],
+ "level": "B(2)",
+ "tier": "obs",
+ "harness": "h_get_backup_sb_wild_log",
+ "includes": ["e2fsck", "lib/support"],
+ "unwind": 9,
+ "unwindset": {"get_backup_sb.0": 4},
+ "cbmc_flags": ["--object-bits", "12"],
+ "unwind_reason": "as get_backup_sb_default",
+ "functions": ["e2fsck/util.c:get_backup_sb"],
+ "assumes": ["as get_backup_sb_default (no -B), but a candidate block may carry ANY s_log_block_size (EXPECTED TO FAIL: undefined shift in EXT2_BLOCK_SIZE(sb) on unvalidated on-disk data; the backup is by assumption of C20 a valid superblock, so this is a robustness observation, not a C20 violation)"],
  "native": false
 }
 */
@@ -28,6 +63,7 @@
  *   - every probe reads SUPERBLOCK_SIZE bytes at block grp * blocks_per_group (+1 for 1 KiB blocks), grp being the
  *     latest answer of ext2fs_list_backups, blocks_per_group the filesystem's if known, else the default 8 * blocksize,
  *     with the channel's block size set to the size being tried;
+ *   - block sizes are tried in the order 1 KiB, 2 KiB, ... 64 KiB (only the given one if it is known);
  *   - the answer is 8193 (the documented fallback) or the block of a probe whose read succeeded and returned a valid
  *     magic and s_log_block_size matching the size being tried; then ctx->superblock / ctx->blocksize are set to it,
  *     otherwise they are unchanged;
@@ -35,15 +71,16 @@
  */
 #include "verif.h"
 
+#define NPROBE 2
 struct in_s {
 	unsigned char have_fs, have_fs_super, have_ctx, have_name, have_mgr;
 	unsigned int ctx_log_bs_plus1, fs_log_bs, fs_bpg;	/* ctx->blocksize = 0 or 1024 << (x - 1) */
 	unsigned long long ctx_superblock;
-	unsigned long long blocks_count, dev_size[8];
-	long open_ret, devsize_ret[8], read_ret[8];
-	unsigned int grp[8];
-	unsigned short magic[8];
-	unsigned int log_bs[8];
+	unsigned int blocks_count, dev_size[8];
+	long open_ret, devsize_ret[8], read_ret[8][NPROBE];
+	unsigned int grp[8][NPROBE];
+	unsigned short magic[8][NPROBE];
+	unsigned int log_bs[8][NPROBE];
 };
 struct in_s IN;
 #include "verif_in.h"
@@ -54,23 +91,18 @@ static struct {
 	unsigned int slot;		/* number of block sizes tried so far (set_blksize calls) */
 	unsigned int bs;		/* block size being tried */
 	unsigned int this_bpg;		/* blocks per group the candidates must be computed with */
+	unsigned int bad_order;		/* a block size was tried out of the 1 KiB, 2 KiB, ... order */
+	unsigned int calls;		/* ext2fs_list_backups calls for the current block size */
 	unsigned int grp;		/* latest answer of ext2fs_list_backups */
+	unsigned int probe;		/* index of the latest probe for the current block size */
 	unsigned int reads, bad_probe;	/* probes; probes at a wrong block / with a wrong size argument */
 	unsigned long long last_blk;	/* block of the latest probe */
 	int last_ok;			/* latest probe: read succeeded, magic valid, block size matches */
-	unsigned int opens, closes;
+	unsigned int opens, closes, list_with_fs;
 	unsigned long long sb0;		/* ctx->superblock on entry */
 	unsigned int bs0;		/* ctx->blocksize on entry */
-	unsigned int list_with_fs;
+	unsigned int first_bs;		/* block size the search must start with */
 } G;
-
-/* text of the named loop anchor in e2fsck/util.c (group loop of get_backup_sb) */
-#define VERIF_INV_GET_BACKUP_SB_GROUPS \
-	__CPROVER_assigns(grp, three, five, seven, ret_sb, __CPROVER_object_whole(buf), ctx->superblock, ctx->blocksize, \
-			  G.grp, G.reads, G.bad_probe, G.last_blk, G.last_ok, G.list_with_fs) \
-	__CPROVER_loop_invariant(ret_sb == 8193) \
-	__CPROVER_loop_invariant(ctx->superblock == G.sb0 && ctx->blocksize == G.bs0) \
-	__CPROVER_loop_invariant(G.bad_probe == 0 && G.list_with_fs == 0)
 
 #include "e2fsck/util.c"
 
@@ -79,6 +111,8 @@ static struct struct_io_manager MGR;
 static struct struct_ext2_filsys FS;
 static struct ext2_super_block SB;
 static struct e2fsck_struct CTX;
+/* s_log_block_size values the candidate blocks may carry: 0..15 (0xf) in the proved units, any 32-bit value in the observation unit */
+static unsigned int g_log_mask = 0xf;
 
 static errcode_t stub_open(const char *name, int flags, io_channel *channel)
 {
@@ -92,22 +126,30 @@ static errcode_t stub_open(const char *name, int flags, io_channel *channel)
 static errcode_t stub_close(io_channel channel) { G.closes++; return 0; }
 static errcode_t stub_set_blksize(io_channel channel, int blksize)
 {
+	if ((unsigned int)blksize != (G.slot == 0 ? G.first_bs : G.bs * 2))
+		G.bad_order++;
 	G.slot++;
 	G.bs = (unsigned int)blksize;
 	G.this_bpg = (IN.have_fs && IN.have_fs_super && IN.fs_bpg) ? IN.fs_bpg : G.bs * 8;
+	G.calls = 0;
 	return 0;
 }
 dgrp_t ext2fs_list_backups(ext2_filsys fs, dgrp_t *three, dgrp_t *five, dgrp_t *seven)
 {
 	if (fs)
 		G.list_with_fs++;
-	G.grp = IN.grp[G.slot & 7];
+	if (G.calls >= NPROBE) {
+		G.grp = 0xffffffffu;	/* end of the sequence */
+		return G.grp;
+	}
+	G.probe = G.calls;
+	G.grp = IN.grp[G.slot & 7][G.calls++];
 	return G.grp;
 }
 errcode_t io_channel_read_blk64(io_channel channel, unsigned long long block, int count, void *data)
 {
 	struct ext2_super_block *sb = data;
-	unsigned int s = G.slot & 7;
+	unsigned int s = G.slot & 7, p = G.probe < NPROBE ? G.probe : 0;
 
 	G.reads++;
 	G.last_blk = block;
@@ -115,11 +157,12 @@ errcode_t io_channel_read_blk64(io_channel channel, unsigned long long block, in
 	    block != (unsigned long long)G.grp * G.this_bpg + (G.bs == 1024 ? 1 : 0))
 		G.bad_probe++;
 	G.last_ok = 0;
-	if (IN.read_ret[s])
-		return IN.read_ret[s];
-	sb->s_magic = IN.magic[s];
-	sb->s_log_block_size = IN.log_bs[s];
-	G.last_ok = IN.magic[s] == 0xEF53 && IN.log_bs[s] <= 6 && (1024u << IN.log_bs[s]) == G.bs;
+	if (IN.read_ret[s][p])
+		return IN.read_ret[s][p];
+	sb->s_magic = IN.magic[s][p];
+	sb->s_log_block_size = IN.log_bs[s][p] & g_log_mask;
+	G.last_ok = IN.magic[s][p] == 0xEF53 && (IN.log_bs[s][p] & g_log_mask) <= 6 &&
+		    (1024u << (IN.log_bs[s][p] & g_log_mask)) == G.bs;
 	return 0;
 }
 blk64_t ext2fs_blocks_count(struct ext2_super_block *super) { return IN.blocks_count; }
@@ -131,9 +174,9 @@ errcode_t ext2fs_get_device_size2(const char *file, int blocksize, blk64_t *retb
 	return 0;
 }
 
-void h_get_backup_sb(void)
+static void run(int with_fs_super, unsigned int ctx_bs, unsigned int log_mask)
 {
-	LOAD_IN();
+	g_log_mask = log_mask;
 	memset(&FS, 0, sizeof(FS));
 	memset(&SB, 0, sizeof(SB));
 	memset(&CTX, 0, sizeof(CTX));
@@ -141,22 +184,25 @@ void h_get_backup_sb(void)
 	MGR.open = stub_open;
 	MGR.close = stub_close;
 	MGR.set_blksize = stub_set_blksize;
-	ASSUME(IN.fs_log_bs <= 6 && IN.ctx_log_bs_plus1 <= 7);
 	FS.blocksize = 1024u << IN.fs_log_bs;
-	FS.super = IN.have_fs_super ? &SB : 0;
+	FS.super = with_fs_super ? &SB : 0;
+	ASSUME((IN.have_fs_super != 0) == (with_fs_super != 0));
+	ASSUME(!with_fs_super || (IN.have_fs && IN.fs_bpg != 0));
 	SB.s_blocks_per_group = IN.fs_bpg;
-	CTX.blocksize = IN.ctx_log_bs_plus1 ? 1024u << (IN.ctx_log_bs_plus1 - 1) : 0;
+	CTX.blocksize = ctx_bs;
 	CTX.superblock = IN.ctx_superblock;
 	CTX.filesystem_name = "d";
 	/* call sites: a name and a manager come with a context */
 	ASSUME(IN.have_ctx || !(IN.have_name && IN.have_mgr));
 	G.sb0 = CTX.superblock;
 	G.bs0 = CTX.blocksize;
+	G.first_bs = (IN.have_ctx && ctx_bs) ? ctx_bs : (IN.have_fs && with_fs_super) ? FS.blocksize : 1024;
 
 	blk64_t r = get_backup_sb(IN.have_ctx ? &CTX : 0, IN.have_fs ? &FS : 0, IN.have_name ? "d" : 0,
 				  IN.have_mgr ? &MGR : 0);
 
 	CHECK(G.bad_probe == 0, "every probe reads SUPERBLOCK_SIZE bytes at grp * blocks_per_group (+1 for 1 KiB blocks), grp from ext2fs_list_backups");
+	CHECK(G.bad_order == 0, "block sizes are tried in doubling order starting with the known size or 1 KiB");
 	CHECK(G.list_with_fs == 0, "the candidate groups are the sparse_super sequence (ext2fs_list_backups(NULL, ...))");
 	CHECK(G.opens == G.closes && G.opens <= 1, "the channel is closed exactly once if it was opened");
 	if (!IN.have_name || !IN.have_mgr)
@@ -166,11 +212,51 @@ void h_get_backup_sb(void)
 		CHECK(CTX.superblock == r && CTX.blocksize == G.bs, "the accepted location and block size are recorded in the context");
 		CHECK(G.bs >= 1024 && G.bs <= 65536, "accepted with a legal block size");
 		if (G.bs == 1024) REACH("accepted_1k");
+#ifndef VERIF_UNIT_get_backup_sb_fs
 		if (G.bs == 4096 && G.slot == 3) REACH("accepted_4k_after_two_sizes");
-		if (IN.have_fs && IN.have_fs_super && IN.fs_bpg != 0 && IN.fs_bpg != 8 * G.bs) REACH("accepted_nondefault_group_size");
-	} else if (IN.have_ctx && !(G.reads > 0 && G.last_blk == 8193 && G.last_ok))
-		CHECK(CTX.superblock == G.sb0 && CTX.blocksize == G.bs0, "fallback answer: the context is unchanged");
+#else
+		if (IN.fs_bpg != 8 * G.bs) REACH("accepted_nondefault_group_size");
+#endif
+	} else {
+		if (IN.have_ctx && !(G.reads > 0 && G.last_blk == 8193 && G.last_ok))
+			CHECK(CTX.superblock == G.sb0 && CTX.blocksize == G.bs0, "fallback answer: the context is unchanged");
+		if (G.opens && !(ctx_bs || with_fs_super) && !(G.reads > 0 && G.last_blk == 8193 && G.last_ok))
+			CHECK(G.slot == 7 && G.bs == 65536, "nothing accepted and block size unknown: all seven block sizes were tried");
+	}
 	if (r == 8193 && G.reads > 0) REACH("fallback_after_probing");
+#ifndef VERIF_UNIT_get_backup_sb_fs
 	if (G.slot == 7) REACH("all_seven_block_sizes");
+#endif
 	REACH("end");
+}
+
+void h_get_backup_sb_default(void)
+{
+	LOAD_IN();
+	ASSUME(IN.fs_log_bs <= 6 && IN.ctx_log_bs_plus1 <= 7);
+	/* eight cases with a constant ctx->blocksize */
+	switch (IN.ctx_log_bs_plus1) {
+	case 0: run(0, 0, 0xf); break;
+	case 1: run(0, 1024, 0xf); break;
+	case 2: run(0, 2048, 0xf); break;
+	case 3: run(0, 4096, 0xf); break;
+	case 4: run(0, 8192, 0xf); break;
+	case 5: run(0, 16384, 0xf); break;
+	case 6: run(0, 32768, 0xf); break;
+	default: run(0, 65536, 0xf); break;
+	}
+}
+
+void h_get_backup_sb_fs(void)
+{
+	LOAD_IN();
+	ASSUME(IN.fs_log_bs <= 6 && IN.ctx_log_bs_plus1 <= 7);
+	run(1, IN.ctx_log_bs_plus1 ? 1024u << (IN.ctx_log_bs_plus1 - 1) : 0, 0xf);
+}
+
+void h_get_backup_sb_wild_log(void)
+{
+	LOAD_IN();
+	ASSUME(IN.fs_log_bs <= 6 && IN.ctx_log_bs_plus1 == 0);
+	run(0, 0, 0xffffffffu);
 }
